@@ -124,6 +124,7 @@ pub fn drive(name: &str, out: &str, args: &[String]) {
         "integ" => integ_driver(out, seed, arg(args, 1, 10000)),
         "caps" => caps_driver(out, seed, arg(args, 1, 200)),
         "struct" => struct_driver(out, seed, arg(args, 1, 100)),
+        "recv" => recv_driver(out, seed, arg(args, 1, 50)),
         _ => {
             eprintln!("unknown driver {}", name);
             std::process::exit(2);
@@ -1150,5 +1151,188 @@ fn struct_driver(out: &str, seed: u64, n: u64) {
             r.act(json!({"op":"borrow","acct":"Q","bank":other.clone(),"amount":5}));
         }
     }
+    r.finish();
+}
+
+// ------------------------------------------------------------------------------------------------
+// recv driver (C10): receivership liquidations with controlled dollar values. Two borrowers at their
+// borrow limit, a price drop found by binary search on the empty bracket [start, end], then brackets
+// [start, repay r, withdraw w, end] with the largest accepted w found by binary search, for accounts
+// far above, just above and below the $5 close-out threshold (asset value and net value on either
+// side of it); attempts that would leave the account healthy; brackets with two starts, ends for the
+// other account, and instructions on the other account inside the bracket.
+// ------------------------------------------------------------------------------------------------
+fn recv_driver(out: &str, seed: u64, n: u64) {
+    let mut rng = StdRng::seed_from_u64(seed);
+    let mut setup = base_setup();
+    setup.push(json!({"op":"init_account","acct":"A3","group":"G1","authority":"U3"}));
+    let mut r = Recorder::new(&format!("{}/recv.trace", out), setup);
+    let (mut nacc, mut nrej, mut nbound) = (0u64, 0u64, 0u64);
+    for _k in 0..n {
+        let mut extra = vec![];
+        let cdec: u32 = *pick(&mut rng, &[6u32, 8, 9]);
+        let ddec: u32 = *pick(&mut rng, &[6u32, 9]);
+        let ckind = *pick(&mut rng, &["spl", "spl", "t22", "t22fee"]);
+        let dkind = *pick(&mut rng, &["spl", "spl", "t22"]);
+        extra.push(json!({"op":"add_mint","mint":"M.C1","decimals":cdec,"kind":ckind,"fee_bps":*pick(&mut rng, &[1u64, 100]),"max_fee":*pick(&mut rng, &[10u64, 5000])}));
+        extra.push(json!({"op":"add_mint","mint":"M.D1","decimals":ddec,"kind":dkind}));
+        let (aw_i, aw_m) = *pick(&mut rng, &[("0.8", "0.9"), ("0.5", "0.65"), ("0.95", "0.97"), ("1", "1"), ("0.8", "0.9")]);
+        let (lw_i, lw_m) = *pick(&mut rng, &[("1", "1"), ("1.25", "1.125"), ("1.5", "1.25"), ("1.05", "1.01"), ("1.25", "1.125")]);
+        extra.push(json!({"op":"add_bank","group":"G1","bank":"C1","mint":"M.C1","cfg":{"aw_init":aw_i,"aw_maint":aw_m}}));
+        extra.push(json!({"op":"add_bank","group":"G1","bank":"D1","mint":"M.D1","cfg":{"aw_init":"0.5","aw_maint":"0.6","lw_init":lw_i,"lw_maint":lw_m}}));
+        // collateral price in 1/1000 dollars per token, debt price 1 or 3/2
+        let pc0: i64 = *pick(&mut rng, &[1000i64, 7000, 250, 123_456, 40]);
+        let pd = *pick(&mut rng, &["1", "3/2", "1"]);
+        extra.push(json!({"op":"set_fixed_price","bank":"C1","price":format!("{}/1000", pc0)}));
+        extra.push(json!({"op":"set_fixed_price","bank":"D1","price":pd}));
+        // target dollar value of the first borrower's collateral
+        let v: f64 = *pick(&mut rng, &[2.0f64, 4.9, 5.5, 8.0, 12.0, 20.0, 60.0, 1000.0, 1_000_000.0]);
+        let camt: u64 = ((v / (pc0 as f64 / 1000.0)) * 10f64.powi(cdec as i32)) as u64;
+        let camt3: u64 = camt / 2 + 1;
+        for u in ["U1", "U3", "liquidator"] {
+            extra.push(json!({"op":"fund","user":u,"mint":"M.C1","amount":"4000000000000000000"}));
+            extra.push(json!({"op":"fund","user":u,"mint":"M.D1","amount":"4000000000000000000"}));
+        }
+        extra.push(json!({"op":"fund","user":"U9","mint":"M.D1","amount":"4000000000000000000"}));
+        extra.push(json!({"op":"deposit","acct":"LP","bank":"D1","amount":3_000_000_000_000_000u64}));
+        extra.push(json!({"op":"deposit","acct":"A1","bank":"C1","amount":camt}));
+        extra.push(json!({"op":"deposit","acct":"A3","bank":"C1","amount":camt3}));
+        extra.push(json!({"op":"init_liq_record","acct":"A1"}));
+        extra.push(json!({"op":"init_liq_record","acct":"A3"}));
+        r.begin(&extra);
+        // both borrow to their limit
+        let mut debt = [0u64; 2];
+        for (i, acct) in ["A1", "A3"].iter().enumerate() {
+            let mkb = |x: u64| json!({"op":"borrow","acct":acct,"bank":"D1","amount":x});
+            if let Some((lo, _)) = search_boundary(&mut r, &mkb, 2_000_000_000_000_000, "RiskEngineInitRejected") {
+                if lo > 0 && r.act(mkb(lo))["res"] == "ok" {
+                    debt[i] = lo;
+                }
+            }
+        }
+        if debt[0] == 0 {
+            continue;
+        }
+        if rng.gen_bool(0.3) {
+            r.act(json!({"op":"tick","dt": *pick(&mut rng, &[3600i64, 86400, 2_592_000])}));
+        }
+        let start = |a: &str| json!({"op":"start_liq","acct":a,"receiver":"liquidator"});
+        let end = |a: &str| json!({"op":"end_liq","acct":a,"receiver":"liquidator"});
+        let rep = |a: &str, x: u64, all: bool| json!({"op":"repay","acct":a,"bank":"D1","amount":x,"all":all,"signer":"liquidator"});
+        let wd = |a: &str, x: u64, all: bool| json!({"op":"withdraw","acct":a,"bank":"C1","amount":x,"all":all,"signer":"liquidator"});
+        let tx = |ixs: Vec<Value>| json!({"op":"tx","ixs":ixs});
+        // while healthy: every bracket is refused
+        r.act(tx(vec![start("A1"), end("A1")]));
+        r.act(tx(vec![start("A1"), rep("A1", 1, false), end("A1")]));
+        // largest collateral price (in 1/1000000 dollars) at which the empty bracket is accepted
+        let setp = |p: i64| json!({"op":"set_fixed_price","bank":"C1","price":format!("{}/1000000", p)});
+        let at = |r: &mut Recorder, p: i64| -> Value {
+            let s = r.ex.snapshot();
+            r.ex.apply(&setp(p));
+            let ev = r.ex.apply(&tx(vec![start("A1"), end("A1")]));
+            r.ex.restore(&s);
+            ev
+        };
+        let (mut plo, mut phi) = (1i64, pc0 * 1000);
+        if !(at(&mut r, phi)["res"] != "ok" && at(&mut r, plo)["res"] == "ok") {
+            continue;
+        }
+        while phi - plo > 1 {
+            let mid = plo + (phi - plo) / 2;
+            if at(&mut r, mid)["res"] == "ok" {
+                plo = mid;
+            } else {
+                phi = mid;
+            }
+        }
+        r.act(setp(phi));
+        r.act(tx(vec![start("A1"), end("A1")]));
+        r.act(setp(plo));
+        if r.act(tx(vec![start("A1"), end("A1")]))["res"] == "ok" {
+            nacc += 1;
+        }
+        let f = *pick(&mut rng, &[1.0f64, 0.99, 0.95, 0.8, 0.5]);
+        let pnew = ((plo as f64) * f).max(1.0) as i64;
+        r.act(setp(pnew));
+        // brackets [start, repay r, withdraw w, end] with the largest accepted w
+        for round in 0..3 {
+            let acct = if round == 2 { "A3" } else { "A1" };
+            let d = if acct == "A1" { debt[0] } else { debt[1] };
+            if d == 0 {
+                continue;
+            }
+            let rr: u64 = match rng.gen_range(0..5) {
+                0 => 1,
+                1 => d / 100 + 1,
+                2 => d / 10 + 1,
+                3 => d / 3 + 1,
+                _ => d / 2 + 1,
+            };
+            let order = rng.gen_bool(0.5);
+            let mk = |w: u64| {
+                let mut ixs = vec![start(acct)];
+                if order {
+                    ixs.push(rep(acct, rr, false));
+                    ixs.push(wd(acct, w, false));
+                } else {
+                    ixs.push(wd(acct, w, false));
+                    ixs.push(rep(acct, rr, false));
+                }
+                ixs.push(end(acct));
+                tx(ixs)
+            };
+            let top = if acct == "A1" { camt } else { camt3 };
+            let e0 = r.probe(&mk(1));
+            if e0["res"] != "ok" {
+                r.act(mk(1));
+                nrej += 1;
+                // repay alone
+                r.act(tx(vec![start(acct), rep(acct, rr, false), end(acct)]));
+                continue;
+            }
+            let (mut lo, mut hi) = (1u64, top);
+            if r.probe(&mk(top))["res"] == "ok" {
+                lo = top;
+            } else {
+                while hi - lo > 1 {
+                    let mid = lo + (hi - lo) / 2;
+                    if r.probe(&mk(mid))["res"] == "ok" {
+                        lo = mid;
+                    } else {
+                        hi = mid;
+                    }
+                }
+                r.act(mk(hi));
+                nrej += 1;
+                nbound += 1;
+            }
+            let w = *pick(&mut rng, &[lo, lo, lo / 2 + 1, 1]);
+            if r.act(mk(w))["res"] == "ok" {
+                nacc += 1;
+            }
+        }
+        // making the account healthy: repay (nearly) everything, take nothing
+        r.act(tx(vec![start("A1"), rep("A1", debt[0] / 2 + 1, false), end("A1")]));
+        r.act(tx(vec![start("A1"), rep("A1", 0, true), end("A1")]));
+        // shape variants with the second unhealthy account
+        if debt[1] > 0 {
+            r.act(tx(vec![start("A1"), start("A3"), end("A3")]));
+            r.act(tx(vec![start("A1"), start("A3"), rep("A3", 1, false), end("A3")]));
+            r.act(tx(vec![start("A3"), start("A1"), rep("A1", 1, false), end("A1")]));
+            r.act(tx(vec![start("A1"), start("A1"), end("A1")]));
+            r.act(tx(vec![start("A1"), end("A3")]));
+            r.act(tx(vec![start("A1"), rep("A3", 1, false), end("A1")]));
+            r.act(tx(vec![start("A1"), wd("A3", 1, false), rep("A1", 1, false), end("A1")]));
+            r.act(tx(vec![start("A1"), rep("A1", 1, false), end("A1"), start("A3"), rep("A3", 1, false), end("A3")]));
+            if r.act(tx(vec![start("A3"), rep("A3", 1, false), end("A3")]))["res"] == "ok" {
+                nacc += 1;
+            }
+        }
+        // outside any bracket the receiver has no rights
+        r.act(wd("A1", 1, false));
+        r.act(rep("A1", 1, false));
+        r.act(json!({"op":"pulse_health","acct":"A1"}));
+    }
+    eprintln!("recv driver: {} scenarios, {} brackets accepted, {} rejected, {} seize boundaries, {} events", n, nacc, nrej, nbound, r.events);
     r.finish();
 }
